@@ -90,7 +90,36 @@ static int history_op(ZSTD_CCtx* c, int op, int isStatic) {
     return 0;
 }
 
+/* optimal-parser subjects: many text-like inputs x the three opt strategies, after histories that leave different
+ * bytes in the workspace, and on caller-provided memory pre-filled with different patterns */
+static void body_opt(void) {
+    int seed = vx_choose((int)vx_opt_int("--ninputs", 40)), lv = vx_choose(3), strat = lv == 0 ? 16 : lv == 1 ? 18 : 19, prior = vx_choose(5), size = vx_choose(2);
+    size_t n = size ? 20000 : 6000; u8* src = g_srcPage; uint32_t s = 1000 + (uint32_t)seed;
+    {   /* text-like: short vocabulary words, a separator or digit, and about one noise byte in eight positions: many short isolated matches */
+        static const char* W[] = {"lorem", "ipsum", "dolor", "sit", "amet", "sed", "do", "of", "and", "the", "block", "frame", "x", "yy", "zzz", "offset", "literal"};
+        size_t o = 0; while (o < n) { s = s * 1103515245u + 12345u; uint32_t r = s >> 8;
+            if (r & 7) { const char* w = W[(r >> 3) % 17]; for (; *w && o < n; w++) src[o++] = (u8)*w; if (o < n) src[o++] = ((r >> 12) & 1) ? ' ' : (u8)('0' + ((r >> 13) % 10)); }
+            else src[o++] = (u8)(r >> 14); } }
+    vx_label("opt input%d level%d prior%d n=%zu", seed, strat, prior, n);
+    ZSTD_CCtx* f = ZSTD_createCCtx(); ZSTD_CCtx_setParameter(f, ZSTD_c_compressionLevel, strat); ZSTD_CCtx_setParameter(f, ZSTD_c_windowLog, 15);
+    size_t rn = ZSTD_compress2(f, g_ref, ZSTD_compressBound(n), src, n); ZSTD_freeCCtx(f);
+    if (ZSTD_isError(rn)) { vx_fail("fresh-context compression fails"); return; }
+    ZSTD_CCtx* c;
+    if (prior >= 3) { memset(g_static, prior == 3 ? 0x3F : 0xFF, g_staticSize); c = ZSTD_initStaticCCtx(g_static, g_staticSize); }
+    else { c = ZSTD_createCCtx();
+        if (prior == 1) { ZSTD_CCtx_setParameter(c, ZSTD_c_compressionLevel, 3); ZSTD_compress2(c, g_hdst, ZSTD_compressBound(BIG), g_hsrc, 600000); }
+        if (prior == 2) { ZSTD_CCtx_setParameter(c, ZSTD_c_compressionLevel, 19); ZSTD_CCtx_setParameter(c, ZSTD_c_windowLog, 17); ZSTD_compress2(c, g_hdst, 1u << 20, g_hsrc + 7, 45000); }
+        ZSTD_CCtx_reset(c, ZSTD_reset_session_and_parameters); }
+    ZSTD_CCtx_setParameter(c, ZSTD_c_compressionLevel, strat); ZSTD_CCtx_setParameter(c, ZSTD_c_windowLog, 15);
+    size_t cn = ZSTD_compress2(c, g_dst, ZSTD_compressBound(n), src, n);
+    if (ZSTD_isError(cn)) vx_fail("compression fails after prior use %d although it succeeds on a fresh context", prior);
+    else if (cn != rn || memcmp(g_dst, g_ref, rn)) vx_fail("optimal-parser output depends on %s", prior >= 3 ? "the initial content of the caller-provided memory" : "what the context compressed before");
+    if (prior < 3) ZSTD_freeCCtx(c);
+    vx_obs_u64(vx_hash(g_ref, rn)); if (prior) vx_nontrivial(); vx_stat_add("histories_run", 1);
+}
+
 static void body(void) {
+    if ((int)vx_opt_int("--mode", 0) == 1) { body_opt(); return; }
     int ctxKind = vx_choose(2);          /* 0 heap, 1 static */
     int hlen = vx_choose(g_depth + 1), h[4];
     for (int i = 0; i < hlen; i++) h[i] = vx_choose(NHOPS);
